@@ -240,6 +240,24 @@ def handle (op : String) : R String := do
     let n ← rNat; let a ← rNat; let d ← rDegree; let sh ← rBool
     pure (match (Note.mk (letterOfNat n) (naccOfNat a)).addDegree d sh with
       | .ok r oct => s!"ok {hexOfString r.str} {oct}" | .invalid => "err invalid" | .panic => "crash panic")
+  | "cdescribe" => do          -- `info chord describe`: every interval of a chord applied to a root, with user dictionaries
+    let n ← rNat; let a ← rNat; let sym ← rStr; let sh ← rBool
+    let attrs ← rList rAttr; let chords ← rList rChordDef
+    pure (match loadAttrs attrs with
+      | .error e => errStr e
+      | .ok as =>
+        match newDict as chords with
+        | none => "err dictionary"
+        | some d =>
+          match d.chord sym, d.chordAttrs sym with
+          | some _, some cas =>
+            let root := Note.mk (letterOfNat n) (naccOfNat a)
+            let rs := cas.map fun (ca : Attr) =>
+              match (d.attr ca.name).bind (fun x => x.degree.semitone), (d.attr ca.name).map (fun x => root.addDegree x.degree sh) with
+              | some st, some (.ok r oct) => some s!"{hexOfString ca.name} {st} {hexOfString r.str} {oct}"
+              | _, _ => none
+            if rs.all Option.isSome then "ok " ++ pList id (rs.filterMap id) else "err describe"
+          | _, _ => "err notfound")
   | "parsenote" => do
     let s ← rStr
     pure (match parseNote s.toList with | some n => "ok " ++ hexOfString n.str | none => "none")
